@@ -174,6 +174,7 @@ def random_history(ctx, steps):
 
 def run(ctx):
     q = ctx.quick
+    gen.reuse_scenarios(ctx, 'C06:stale-result', 'C06', reps=12 if q else 150)
     exhaustive(ctx, 3 if q else 4)
     if not q:
         # length 5 over the letters that change reachability
